@@ -367,7 +367,7 @@ def main(tier, seed):
                        level_note="lax validators: theorems on the translated source (Gen/Constraints.v). Idempotence of whole types is a "
                                   "theorem for the fragment `stable` of Spec/Stable.v (C03_reparse_returns_the_result; the "
                                   "reparse-fragment suite classifies every generated case in Coq and checks the implementation "
-                                  "inside it); outside it (fixed-length tuples, &, unions of constrained types, lax "
+                                  "inside it); outside it (&, unions of constrained types, lax "
                                   "constraints inside types, exclude / preserve policies) it is carried by the parse "
                                   "correspondence and the idempotence oracle on the implementation (partial)")
 
